@@ -470,6 +470,11 @@ func pickNum(r *rand.Rand, h *Host, i int, smallOnly bool) operand {
 		return operand{text: hp(i) + ".U32", val: Val{C: "uint", U: uint64(uint32(v))}}
 	case 9:
 		f := floatBound[r.Intn(len(floatBound))]
+		if !smallOnly && r.Intn(5) == 0 {
+			// injected data may hold the special values of float64 / float32 (a comparison involving a float is made
+			// in float64: every comparison with a NaN is false except !=)
+			f = []float64{math.NaN(), math.Inf(1), math.Inf(-1), math.Copysign(0, -1)}[r.Intn(4)]
+		}
 		if r.Intn(2) == 0 {
 			g := float32(f)
 			h.F32 = g
@@ -491,7 +496,7 @@ var unspecified bool
 var curName, curDesc string
 
 func pickStr(r *rand.Rand, h *Host, i int) operand {
-	lits := []string{"a", "b", "ab", "", "B", "abc", "z", "10", "9"}
+	lits := []string{"a", "b", "ab", "", "B", "abc", "z", "10", "9", "%", "15%", "%d", "a%sb", "%%", "é", "a b"}
 	s := lits[r.Intn(len(lits))]
 	switch r.Intn(5) {
 	case 0:
